@@ -430,6 +430,12 @@ impl<const M: usize> Sim<M> {
                         let m = format!("new chunk of {} bytes is smaller than the previous one ({}) although nothing was refused and no limit is set", ev.size, self.last_chunk_size);
                         self.v("C18", m);
                     }
+                    // geometric growth: with no limit and nothing refused, the usable size of a new chunk is at least
+                    // twice that of the chunk it succeeds
+                    if self.limit.is_none() && !refused_in_step && self.last_chunk_size > self.k_meta && ev.size.saturating_sub(self.k_meta) < 2 * (self.last_chunk_size - self.k_meta) {
+                        let m = format!("new chunk of {} bytes is less than double the previous one ({}) although nothing was refused and no limit is set", ev.size, self.last_chunk_size);
+                        self.v("C18", m);
+                    }
                     self.last_chunk_size = ev.size;
                     self.chunks.push(Block { base: ev.addr, size: ev.size, align: ev.align, arena: ev.arena, seq: ev.seq, live: true });
                 }
